@@ -23,7 +23,9 @@ impl FaceIntegral for VoronoiFaceIntegral {
         Self {
             area: 0.,
             centroid: DVec3::ZERO,
-            normal: cell.clipping_planes[clipping_plane_idx].plane.n,
+            // The clipping planes' normals point into the cell; face normals point away
+            // from the left generator.
+            normal: -cell.clipping_planes[clipping_plane_idx].plane.n,
         }
     }
 
